@@ -1,6 +1,9 @@
 """C08, C09: signal descriptors (pkg/descriptor/signal.go; physical setter of internal/generate/file.go).
 DESIGN.md 5.8, 5.9."""
+import json
+import os
 import re
+import shutil
 
 import vlib
 from checks import translate_tie
@@ -54,7 +57,12 @@ PROPERTIES = {
                 "physical -> raw -> physical below two steps (below one step is refuted with a witness). The model is tied to the code by differential runs over signals of every length 1..52, both signs, "
                 "decimal/binary/odd scales of both signs, offsets, absent/one-sided/two-sided ranges; the driver evaluates "
                 "the clause predicates (clamp, rule, saturation/encodable, monotone on ordered pairs, round-trip bounds) on the "
-                "implementation's outputs.",
+                "implementation's outputs. A second stage runs GENERATED code: a seeded batch of DBC programs concentrated on "
+                "scaled signals (multiplexed messages with always-present scaled signals behind multiplexed ones, scaled "
+                "multiplexed signals, negative factors, one-sided ranges) goes through the tree's compiler + generator + the Go "
+                "compiler, and every generated physical getter/setter (<Signal>() / Set<Signal>(float64), also after "
+                "UnmarshalFrame and into Frame()) and the descriptor wiring Messages().<Msg>.<Signal> are compared with the "
+                "same Flocq model (Gen/HistoryPhys.v phys_set / phys_get over the database the program denotes).",
         "note": _NOTE09,
         "technique": "Coq proof (Flocq) about a Gallina model + differential correspondence with predicate evaluation",
         "design_ref": "5.9",
@@ -74,7 +82,14 @@ RULES = {
            "length <= 10 on 4 signals each, boundary+random elsewhere; physical axis: 0, -0, subnormals, +-1e+-300, "
            "+-MaxFloat64, +-Inf, range edges and offset +-1ulp, steps and half steps +-1ulp, random; ordered pairs for "
            "monotonicity; UnmarshalPhysical; a few signals outside the class (correspondence only). "
-           "non-trivial = non-zero result (TP/FP/UP) or distinct results (MO); distinct by line hash",
+           "non-trivial = non-zero result (TP/FP/UP) or distinct results (MO); distinct by line hash. "
+           "Generated-code stage (kinds PW PA PR PS PG): per program of gen_phys_batch (the last two are TWINS of the first two: "
+           "same message and signal names, other lengths/signs/scaling, generated by the same process) every signal with "
+           "physical accessors: wiring (PW, all signals), existence of the physical accessors (PA, all signals, incl. "
+           "identity-scaled signals whose declared range touches the raw limit on one side), SetRaw -> <Signal>() on raw extremes/out-of-range/random arguments (PR), "
+           "Set<Signal>(x) -> Raw/<Signal>()/Frame() on range edges, raw-extreme images, steps and half steps +-1ulp, "
+           "zeros, subnormals, huge, +-Inf, random (PS; multiplexed signals with their selector set), UnmarshalFrame of "
+           "boundary/random payloads -> all physical getters (PG); non-trivial = non-zero raw value / payload",
 }
 
 ASSUMPTIONS = {
@@ -89,7 +104,9 @@ ASSUMPTIONS = {
             "monotonicity; round-trip clauses under the hypothesis resolves (|offset| <= 2^50*|scale|, magnitudes in "
             "[2^-960, 2^960]) and length <= 32",
             "the Go type of the generated setter's field is taken from the real internal/generate.signalPrimitiveType "
-            "(overlay export); the conversion T(float64) truncates towards zero for in-range values (Go spec)"],
+            "(overlay export); the conversion T(float64) truncates towards zero for in-range values (Go spec)",
+            "generated-code stage: the DBC program generator (checks/genprogs.py gen_phys_batch) emits programs of DESIGN.md "
+            "4.3 together with the database they denote; go/format, go-goon and the Go compiler are exercised, not modelled"],
 }
 
 
@@ -99,7 +116,10 @@ KNOWN_ID = "C09-physical-roundtrip-truncation"
 _TIE_TEXT = ' In addition the model is REGENERATED from the source on every run: harness/translate translates the Go functions (go/types-checked subset) to Gallina and coq/translate/Equiv.v re-proves, for all inputs, that each translated function equals the hand-written model; a semantic change of a translated function breaks that proof obligation.'
 _TIE_NOTE = " Added trusted base of the translation tie: the translator harness/translate/main.go (unverified Go program) and Translate/GoSem.v's reading of Go's integer semantics."
 for _pid in ['C08']:
-    PROPERTIES[_pid] = dict(PROPERTIES[_pid], text=PROPERTIES[_pid]["text"] + _TIE_TEXT, note=PROPERTIES[_pid]["note"] + _TIE_NOTE)
+    PROPERTIES[_pid] = dict(PROPERTIES[_pid], text=PROPERTIES[_pid]["text"] + _TIE_TEXT, note=PROPERTIES[_pid]["note"] + _TIE_NOTE + translate_tie.TIE_NOTE_FLOAT)
+translate_tie.describe(PROPERTIES, "C09", "(here: ToPhysical, FromPhysical, UnmarshalPhysical, SaturatedCastFloat, MinFloat, MaxFloat, UnmarshalFloat, "
+                       "MarshalFloat of pkg/descriptor/signal.go with the integer functions they call, = Descriptor/Physical.v)",
+                       translate_tie.TIE_NOTE_INT, translate_tie.TIE_NOTE_FLOAT)
 
 
 def known_c09():
@@ -115,6 +135,13 @@ def harness_args(pid, tier, seed, witness=False):
         return ["c08", seed] + ([2, 4] if tier == "quick" else [200, 1])   # nrand coldStep
     # perLen nraw nphys npairs exhMax exh16 witness
     return ["c09", seed] + ([5, 8, 8, 20, 10, 0] if tier == "quick" else [60, 24, 24, 60, 14, 1]) + [1 if witness else 0]
+
+
+def harness_args_386(pid, seed, witness=False):
+    """second architecture (32-bit int/uint; GO386=sse2, so float64 arithmetic is the same IEEE arithmetic): reduced sample"""
+    if pid == "C08":
+        return ["c08", seed, 1, 8]
+    return ["c09", seed, 2, 4, 4, 8, 8, 0, 1 if witness else 0]
 
 
 _ONE_STEP = re.compile(r" clause=roundtrip-physical-one-step ratio=(\S+)$")
@@ -141,17 +168,106 @@ def c09_known_matcher(res):
     return match
 
 
+def generated_code_stage(res):
+    """C09 on GENERATED code: programs concentrated on scaled signals -> the tree's generate.Compile/Database -> go build
+    (the batch pipeline of checks/gen.py) -> harness/genrun mode `phys` -> the gen driver (Flocq model)."""
+    from checks import gen, genprogs
+    quick = res.tier == "quick"
+    count = 10 if quick else 40
+    nraw, nphys, nframes = (8, 16, 24) if quick else (16, 40, 60)
+    scratch = vlib.scratch_dir()
+    try:
+        progs = genprogs.gen_phys_batch(res.seed, count)
+        nviol = len(res.violations)
+        exe, progs, status = gen.prepare_batch(res, scratch, res.seed, count, progs=progs)
+        corr = "generated physical accessors and descriptor wiring (tree's generator, Go compiler) = Flocq model on every case"
+        res.corr_obligations = list(res.corr_obligations) + [corr]
+        if exe is None:
+            if len(res.violations) == nviol:
+                res.violation("generated-code stage: batch could not be prepared", {"status": status}, no_input=True)
+            return
+        drv = vlib.build_driver("gen")
+        args = ["phys", res.seed, nraw, nphys, nframes]
+        rc, out, err = vlib.run_pipe(exe, [str(a) for a in args], drv, [os.path.join(scratch, "exp")], timeout=900)
+        stats = None
+        texts = {n: t for n, t, _, _ in progs}
+        how = {"PA": "does the generated type of message <mi> have Raw<Sig>/SetRaw<Sig>, <Sig>() float64, Set<Sig>(float64) for signal <si>; "
+                     "model: hasPhysicalRepresentation as specified for C11 (Gen/Api.v has_physical)",
+               "PW": "reflection on <pkg>.Messages(): field <Msg>, then the field named like signal <si> of Database().Messages[<mi>]",
+               "PR": "fresh message (dispatcher, Reset()); SetRaw<Sig>(argument); Raw<Sig>(); <Sig>()",
+               "PS": "fresh message; multiplexer field := selector if the signal is multiplexed; Set<Sig>(float64frombits(x)); "
+                     "Raw<Sig>(); <Sig>(); Frame().Data",
+               "PG": "fresh message; UnmarshalFrame({ID, Length, IsExtended of the message, Data}); Raw<Sig>() and <Sig>() of "
+                     "every signal with physical accessors (index:raw:physical)"}
+        found = {}
+        for line in out.splitlines():
+            if line.startswith("STATS "):
+                stats = json.loads(line[6:])
+            elif line.startswith("CLASS "):
+                cls = json.loads(line[6:])
+                if cls["messages_outside"]:
+                    res.violation("check machinery: programs of the generated-code stage fall outside the class of the C03/C10 "
+                                  "theorems: %s" % cls["outside"][:5], {"outside": cls["outside"]}, no_input=True)
+            elif line.startswith("MISMATCH ") or line.startswith("PFAIL "):
+                kind, _, rest = line.partition(" ")
+                obs, _, detail = rest.partition(" || ")
+                found.setdefault(obs.split()[0], []).append((obs, detail))
+        # one replay per kind of observation first (accessors: PR PS PG; wiring: PW), then the seconds, ...
+        order = [k for k in ("PS", "PR", "PG", "PW", "PA") if k in found] + sorted(k for k in found if k not in ("PS", "PR", "PG", "PW", "PA"))
+        shown = 0
+        for rank in range(3):
+            for k in order:
+                if rank < len(found[k]) and shown < 8:
+                    obs, detail = found[k][rank]
+                    toks = obs.split()
+                    pkg = toks[1] if len(toks) > 1 else "?"
+                    shown += 1
+                    res.violation("generated code disagrees with the physical-conversion model (%s): %s ; %s"
+                                  % (k, obs[:300], detail[:300]),
+                                  {"dbc": texts.get(pkg, ""), "observation": obs, "detail": detail,
+                                   "line format": "<kind> <package> <message index> <signal index | payload> [argument] => implementation; model= what the Flocq model computes",
+                                   "how": how.get(k, ""),
+                                   "harness": "harness/genrun/phys_c09.go " + " ".join(map(str, args)),
+                                   "reported_mismatches_by_kind": {kk: len(v) for kk, v in found.items()}})
+        if rc != 0 or stats is None:
+            res.violation("generated-code stage: runner or model driver failed (rc=%s)" % rc,
+                          {"stderr": err[-2000:], "stdout_tail": out[-800:]}, no_input=True)
+            return
+        # counted like the descriptor-level streams
+        res.cov["evaluations"] = res.cov.get("evaluations", 0) + stats["cases"]
+        res.cov["distinct_nontrivial"] = res.cov.get("distinct_nontrivial", 0) + stats["distinct_nontrivial"]
+        res.cov["mismatches"] = res.cov.get("mismatches", 0) + stats["mismatches"]
+        kinds = dict(res.cov.get("kinds", {}))
+        for k, v in stats["kinds"].items():
+            kinds[k] = kinds.get(k, 0) + v
+        res.cov["kinds"] = kinds
+        res.cov["samples"] = list(res.cov.get("samples", [])) + [s[:300] for s in stats["samples"][:2]]
+        summ = [s for _, _, _, s in progs]
+        res.cov["generated_code_stage"] = {
+            "programs": len(progs), "cases": stats["cases"], "kinds": stats["kinds"], "mismatches": stats["mismatches"],
+            "messages": sum(s["messages"] for s in summ), "signals": sum(s["signals"] for s in summ),
+            "scaled_signals": sum(s["scaled"] for s in summ), "multiplexed_signals": sum(s["muxed"] for s in summ),
+            "always_present_scaled_signals_behind_a_multiplexed_one": sum(s["plain_scaled_behind_multiplexed"] for s in summ),
+            "twin_programs": {s["twin_of"]: n for n, _, _, s in progs if s.get("twin_of")},
+            "generator_status": sorted(status.values())[:2],
+        }
+    finally:
+        shutil.rmtree(scratch, ignore_errors=True)
+
+
 def run(res, replay=None):
     pid = res.id
     vlib.proof_stage(res)
     known = known_c09() if pid == "C09" else None
-    if pid == "C08":
-        translate_tie.run_tie(res, ["descriptor"])
+    # C08: integer descriptor functions + float32 marshalling; C09: ToPhysical / FromPhysical / UnmarshalPhysical / SaturatedCastFloat
+    translate_tie.run_tie(res, ["descriptor", "physical"])
     vlib.standard_run(res, "descriptor", harness_args(pid, res.tier, res.seed, witness=known is not None),
                       "descriptor", RULES[pid], ASSUMPTIONS[pid],
                       timeout=1500 if res.tier == "quick" else 6000,
-                      known_matcher=c09_known_matcher(res) if known is not None else None)
+                      known_matcher=c09_known_matcher(res) if known is not None else None,
+                      also_goarch="386", goarch_args=harness_args_386(pid, res.seed, witness=known is not None))
     if pid == "C09":
+        generated_code_stage(res)
         res.cov["known_finding_listed"] = KNOWN_ID if known is not None else None
         res.cov["one_step_clause"] = {
             "cases_exceeding_one_step": res.cov.get("physical_roundtrip_over_one_step"),
